@@ -687,6 +687,34 @@ def search(ctx, deep=False):
                     add("api:krige:conditions", "Krige._krige_cond != normalize(cond_val - trend) - mean", case)
                 if not np.allclose(kf, cval, rtol=1e-7, atol=1e-7):
                     add("api:krige:pipeline", "kriged field at the conditions != conditioning values after post-processing", case)
+                # Krige and CondSRF output with post_process on / off on the same target points
+                with warnings.catch_warnings():
+                    warnings.simplefilter("ignore")
+                    with np.errstate(all="ignore"):
+                        kraw, _ = kr(pos, mesh_type=mesh, post_process=False, store=False)
+                        kout, _ = kr(pos, mesh_type=mesh, post_process=True, store=False)
+                        csrf = gs.CondSRF(kr, seed=int(rng.randint(1, 10**6)), mode_no=16)
+                        sd = int(rng.randint(1, 10**6))
+                        craw = np.array(csrf(pos, mesh_type=mesh, seed=sd, post_process=False, store=False))
+                        cout = np.array(csrf(pos, mesh_type=mesh, seed=sd, post_process=True, store=False))
+                ev += 4
+                if not np.allclose(kout, topt[1] + oracle.denormalize(mopt[1] + np.array(kraw)), rtol=1e-13, atol=1e-13, equal_nan=True):
+                    add("api:krige:post-process", "Krige output != trend + denormalize(mean + raw kriging field)", case)
+                if not np.allclose(cout, topt[1] + oracle.denormalize(mopt[1] + craw), rtol=1e-13, atol=1e-13, equal_nan=True):
+                    add("api:condsrf:post-process", "CondSRF output != trend + denormalize(mean + raw conditioned field)", case)
+            # vector SRF (incompressible generator): constant mean / trend broadcast over the components
+            if dim > 1 and t % 3 == 0:
+                with warnings.catch_warnings():
+                    warnings.simplefilter("ignore")
+                    with np.errstate(all="ignore"):
+                        cm_, ct_ = float(rng.uniform(-0.2, 0.2)), float(rng.uniform(-1, 1))
+                        vs = gs.SRF(gs.Gaussian(dim=dim, var=0.05, len_scale=1.0), generator="VectorField", mean=cm_,
+                                    normalizer=make(kind, l, s), trend=ct_, seed=int(rng.randint(1, 10**6)), mode_no=16)
+                        vraw = np.array(vs(pos, mesh_type=mesh, post_process=False, store=False))
+                        vout = np.array(vs(pos, mesh_type=mesh, post_process=True, store=False))
+                ev += 2
+                if vraw.shape[0] != dim or not np.allclose(vout, ct_ + oracle.denormalize(cm_ + vraw), rtol=1e-13, atol=1e-13, equal_nan=True):
+                    add("api:srf:vector-pipeline", "vector SRF output != trend + denormalize(mean + raw field)", case)
         except Exception as ex:
             add("api:pipeline:exception", f"{type(ex).__name__}: {ex}", case)
     # --- replay of the Lean witness `norm_denorm_full_false` on the implementation (observation, see final report)
